@@ -32,7 +32,7 @@ func c12R5(c *Ctx) {
 		var swap ssa.Instruction
 		eachInstr(impl, func(r instrRef) {
 			if call, ok := r.I.(*ssa.Call); ok && calleeName(call.Common()) == "(*sync/atomic.Bool).Swap" {
-				if f := loadedField(call.Call.Args[0]); f != nil && f.Name() == "closed" {
+				if f := loadedField(call.Call.Args[0]); f != nil && fieldName(f) == "closed" {
 					if b, ok := constBool(call.Call.Args[1]); ok && b && swap == nil {
 						swap = call
 					}
@@ -120,7 +120,7 @@ func c12R6(c *Ctx) {
 	sites := c.provideInputSends()
 	la := c.Locks()
 	for _, s := range sites {
-		if s.ch.Name() == "signalToStep" {
+		if fieldName(s.ch) == "signalToStep" {
 			continue // not an input hand-over (C01.R2 table, C12.R7)
 		}
 		key := fmt.Sprintf("handover:%s:%s", c.fnName(s.fn), s.ch.Name())
